@@ -54,6 +54,11 @@ def lattice_exact(mon, rng):
             gen._CONE_CACHE[key] = PolyhedralConeOrder(OrderingCone(np.array(Wl, dtype=np.int64)))
         order = gen._CONE_CACHE[key]
         mon.count("integer_dtype_cone_cases")
+    elif rng.random() < 0.3:
+        # the same cone with every facet row multiplied by a power of two (exact in floating point): tiny or huge row norms must
+        # not change any answer — seeded/W07-ordering-cone-orthant-fast-path-allclose (absolute tolerance on W)
+        order = gen.make_order("W", W=Wi.astype(float) * float(2.0 ** int(rng.choice([-40, -27, -27, -10, 20, 40]))))
+        mon.count("power_of_two_scaled_cone_cases")
     else:
         order = gen.make_order("W", W=Wi.astype(float))
     m = Wi.shape[1]
